@@ -1283,13 +1283,13 @@ def rotate(phi, theta, psi, ra, dec):
 
     b = -sintheta * cbsa + costheta * sb
 
-    (w,) = np.where(b > 1.0)
-    if w.size > 0:
-        b[w] = 1.0
+    # latitude from arctan2 of the rotated vector: arcsin(b) loses
+    # precision (~1e-8 radians) near the poles and is nan for b < -1
+    xo = cb * cos(a)
+    yo = costheta * cbsa + sintheta * sb
+    dec_out = arctan2(b, sqrt(xo * xo + yo * yo))
 
-    dec_out = arcsin(b)
-
-    a = arctan2(costheta * cbsa + sintheta * sb, cb * cos(a))
+    a = arctan2(yo, xo)
     ra_out = (a + psi + fourpi) % twopi
 
     rad2deg(ra_out, out=ra_out)
